@@ -252,7 +252,8 @@ func ruleC02(c *Ctx, r *Result) {
 		seen := map[string]bool{}
 		for _, site := range callsIn(fn) {
 			n := c.calleeName(site)
-			if strings.HasPrefix(n, "hdf5.") && (strings.Contains(n, "Attribute")) && !seen[n] {
+			// a strategy can fail: pure helpers (counting, searching) that return no error are not routing decisions
+			if strings.HasPrefix(n, "hdf5.") && (strings.Contains(n, "Attribute")) && !seen[n] && errResultIndex(site.Common().Signature()) >= 0 {
 				seen[n] = true
 				out = append(out, n)
 			}
